@@ -69,9 +69,10 @@ Proof.
   apply is_digit_range in Ea.
   unfold go_atoi. replace ((a =? 45) || (a =? 43)) with false by lia.
   cbn [atoi_digits]. replace (is_digit a) with true by (symmetry; apply is_digit_range; lia).
-  replace (0 * 10 + (a - 48) <? 0) with false by lia.
+  replace (0 * 10 + (a - 48)) with (a - 48) by lia.
+  replace (a - 48 <? 0) with false by lia.
   replace (go_mod (zlength [a]) 3) with 1 by reflexivity.
-  f_equal. f_equal. lia.
+  reflexivity.
 Qed.
 
 Lemma numeric_chunk_2 a b :
@@ -86,9 +87,10 @@ Proof.
   cbn [atoi_digits].
   replace (is_digit a) with true by (symmetry; apply is_digit_range; lia).
   replace (is_digit b) with true by (symmetry; apply is_digit_range; lia).
-  replace ((0 * 10 + (a - 48)) * 10 + (b - 48) <? 0) with false by lia.
+  replace ((0 * 10 + (a - 48)) * 10 + (b - 48)) with (10 * (a - 48) + (b - 48)) by lia.
+  replace (10 * (a - 48) + (b - 48) <? 0) with false by lia.
   replace (go_mod (zlength [a; b]) 3) with 2 by reflexivity.
-  f_equal. f_equal. lia.
+  reflexivity.
 Qed.
 
 Lemma numeric_chunk_3 a b c :
@@ -106,9 +108,11 @@ Proof.
   replace (is_digit a) with true by (symmetry; apply is_digit_range; lia).
   replace (is_digit b) with true by (symmetry; apply is_digit_range; lia).
   replace (is_digit c) with true by (symmetry; apply is_digit_range; lia).
-  replace (((0 * 10 + (a - 48)) * 10 + (b - 48)) * 10 + (c - 48) <? 0) with false by lia.
+  replace (((0 * 10 + (a - 48)) * 10 + (b - 48)) * 10 + (c - 48))
+    with (100 * (a - 48) + 10 * (b - 48) + (c - 48)) by lia.
+  replace (100 * (a - 48) + 10 * (b - 48) + (c - 48) <? 0) with false by lia.
   replace (go_mod (zlength [a; b; c]) 3) with 0 by reflexivity.
-  f_equal. f_equal. lia.
+  reflexivity.
 Qed.
 
 (* the loop of encodeNumeric succeeds exactly on digit strings *)
@@ -180,7 +184,7 @@ Proof.
   - left. split; [reflexivity|intros []].
   - destruct (x =? c) eqn:E.
     + right. rewrite zlength_cons. pose proof (zlength_nonneg cs). split; [lia|].
-      replace (i - i) with 0 by lia. cbn. lia.
+      replace (i - i) with 0 by lia. change (Z.to_nat 0) with 0%nat. cbn [nth]. lia.
     + destruct (IH (i + 1)) as [[H1 H2]|[H1 H2]].
       * left. split; [exact H1|]. intros [Hx|Hin]; [lia|contradiction].
       * right. rewrite zlength_cons. split; [lia|].
@@ -358,14 +362,14 @@ Proof.
     destruct (zlength s mod 2 =? 1) eqn:Eodd.
     + destruct (split_last_even s) as (s' & a & E & Hl').
       { unfold zlength in Eodd. zify. lia. }
-      rewrite E at 1. rewrite map_app.
+      subst s. rewrite map_app.
       assert (forallb in_cs s' = true /\ in_cs a = true) as [Hs' Ha].
-      { rewrite E in Hs. rewrite forallb_app in Hs. apply andb_true_iff in Hs. cbn in Hs.
+      { rewrite forallb_app in Hs. apply andb_true_iff in Hs. cbn in Hs.
         rewrite andb_true_r in Hs. exact Hs. }
       rewrite alpha_pairs_ok by (exact Hl' || exact Hs'). cbn [obind map recv].
       pose proof (in_cs_spec a Ha) as (_ & Hia & _).
       replace (cs_idx a <? 0) with false by lia. cbn [obind].
-      rewrite E at 2. rewrite (alnum_bits_snoc (length s / 2)) by exact Hl'. reflexivity.
+      rewrite (alnum_bits_snoc (length (s' ++ [a]) / 2)) by exact Hl'. reflexivity.
     + rewrite <- (app_nil_r (map cs_idx s)).
       rewrite alpha_pairs_ok by (exact Hs || (unfold zlength in Eodd; zify; lia)).
       cbn [obind]. rewrite app_nil_r. reflexivity.
@@ -418,8 +422,6 @@ Proof.
     apply andb_true_iff in Hs. destruct Hs as [Hb Hr].
     pose proof (in_cs_spec a Ha) as (_ & Hia & Hca). pose proof (in_cs_spec b Hb) as (_ & Hib & Hcb).
     cbn [length parse_alnum]. cbn [alnum_bits].
-    assert (alnum_bits (a :: b :: r) = msb_bits 11 (cs_idx a * 45 + cs_idx b) ++ alnum_bits r) as ->
-      by (destruct r; reflexivity).
     rewrite <- app_assoc.
     rewrite read_int_msb by (change (2 ^ Z.of_nat 11) with 2048; lia).
     replace (cs_idx a * 45 + cs_idx b <? 2025) with true by lia.
